@@ -595,11 +595,13 @@ pub struct Dec<'a> {
     pub inp: &'a [u8],
     pub pos: usize,
     depth: usize,
+    /// Keep the wire structure: no sorting, no duplicate collapsing in maps / sets / heaps.
+    raw: bool,
 }
 
 impl<'a> Dec<'a> {
     pub fn new(inp: &'a [u8]) -> Dec<'a> {
-        Dec { inp, pos: 0, depth: 0 }
+        Dec { inp, pos: 0, depth: 0, raw: false }
     }
     /// Canonical Compact<u32> (count prefix).
     pub fn compact_u32(&mut self) -> Result<u64, Rej> {
@@ -740,7 +742,7 @@ impl<'a> Dec<'a> {
                 for _ in 0..n {
                     items.push(self.dec(e)?);
                 }
-                if *kind == SeqKind::Heap {
+                if *kind == SeqKind::Heap && !self.raw {
                     items.sort();
                 }
                 Ok(V::Seq(items))
@@ -754,14 +756,25 @@ impl<'a> Dec<'a> {
                 for _ in 0..n {
                     items.push(self.dec(e)?);
                 }
-                items.sort();
-                items.dedup();
+                if !self.raw {
+                    items.sort();
+                    items.dedup();
+                }
                 Ok(V::Seq(items))
             },
             S::Map(k, val) => {
                 let n = self.compact(4)? as u64;
                 if k.is_empty() && val.is_empty() {
                     return Ok(V::Map(if n == 0 { vec![] } else { vec![(k.empty_value(), val.empty_value())] }));
+                }
+                if self.raw {
+                    let mut items = Vec::new();
+                    for _ in 0..n {
+                        let a = self.dec(k)?;
+                        let b = self.dec(val)?;
+                        items.push((a, b));
+                    }
+                    return Ok(V::Map(items));
                 }
                 let mut m: BTreeMap<V, V> = BTreeMap::new();
                 for _ in 0..n {
@@ -859,8 +872,16 @@ impl<'a> Dec<'a> {
 }
 
 /// Returns the decoded value and the number of bytes consumed.
+/// Like `ref_decode` but keeps the wire structure (all map pairs / set elements in wire order,
+/// duplicates included): what the decoder has to walk through, as opposed to what it returns.
+pub fn ref_decode_raw(s: &S, bytes: &[u8]) -> Result<(V, usize), Rej> {
+    let mut d = Dec { inp: bytes, pos: 0, depth: 0, raw: true };
+    let v = d.dec(s)?;
+    Ok((v, d.pos))
+}
+
 pub fn ref_decode(s: &S, bytes: &[u8]) -> Result<(V, usize), Rej> {
-    let mut d = Dec { inp: bytes, pos: 0, depth: 0 };
+    let mut d = Dec { inp: bytes, pos: 0, depth: 0, raw: false };
     let v = d.dec(s)?;
     Ok((v, d.pos))
 }
